@@ -55,7 +55,8 @@ impl Pred {
 pub enum Step {
     AndModify(u64),
     AndReplace(bool, u64),
-    Insert(u64),
+    /// `Entry::insert(v)`, then `*handle.get_mut() += add`
+    Insert(u64, u64),
     /// flavour: 0 or_insert, 1 or_insert_with, 2 or_insert_with_key, 3 or_default
     OrInsert(u8, u64, u64),
     OccRemove,
@@ -75,7 +76,7 @@ impl Step {
         match self {
             Step::AndModify(a) => format!("and_modify:{a}"),
             Step::AndReplace(k, a) => format!("and_replace:{}:{a}", *k as u8),
-            Step::Insert(v) => format!("insert:{v}"),
+            Step::Insert(v, a) => format!("insert:{v}:{a}"),
             Step::OrInsert(f, v, a) => format!("or_insert:{f}:{v}:{a}"),
             Step::OccRemove => "occ_remove".into(),
             Step::OccRemoveEntry => "occ_remove_entry".into(),
@@ -94,7 +95,7 @@ impl Step {
         Some(match p.as_slice() {
             ["and_modify", a] => Step::AndModify(n(a)?),
             ["and_replace", k, a] => Step::AndReplace(*k == "1", n(a)?),
-            ["insert", v] => Step::Insert(n(v)?),
+            ["insert", v, a] => Step::Insert(n(v)?, n(a)?),
             ["or_insert", f, v, a] => Step::OrInsert(n(f)? as u8, n(v)?, n(a)?),
             ["occ_remove"] => Step::OccRemove,
             ["occ_remove_entry"] => Step::OccRemoveEntry,
@@ -1364,7 +1365,7 @@ impl World {
             }
             if let Some((l, _c, _b, cur)) = po.old {
                 if l != cur {
-                    self.fail(&["C05"], format!("cached iterator expects {cur} more elements, old table holds {l}"));
+                    self.fail(&["C05", "C08", "C12"], format!("cached iterator expects {cur} more elements, old table holds {l}"));
                 }
                 if po.mi + l != po.len {
                     self.fail(&["C01", "C05"], "main + old element counts do not add up to len()".into());
@@ -1511,10 +1512,10 @@ impl World {
             let (key, val, d) = match s {
                 Step::AndModify(a) => (None, None, format!("and_modify:{a}")),
                 Step::AndReplace(kp, a) => (None, None, format!("and_replace:{}:{a}", *kp as u8)),
-                Step::Insert(v) => {
+                Step::Insert(v, a) => {
                     let key = if raw { Some(Key::new(k)) } else { None };
                     let val = Val::new(*v);
-                    let d = format!("insert:{}:{v}:{}", key.as_ref().map_or(0, |x| x.id), val.id);
+                    let d = format!("insert:{}:{v}:{}:{a}", key.as_ref().map_or(0, |x| x.id), val.id);
                     (key, Some(val), d)
                 }
                 Step::OrInsert(f, v, a) => {
@@ -1572,6 +1573,8 @@ impl World {
         let head = format!("entry {mid} {} {lookup_hashes} {k} {entry_kid} {}", raw as u8, if descs.is_empty() { "-".into() } else { descs.join(";") });
 
         let mut seen: Option<(u64, u64)> = None;
+        // what the last executed step knows the stored value to be (None: removed / unknown)
+        let mut expect_now: Option<(u64, u64)> = None;
         let mut returned: Vec<u64> = vec![];
         let mut adding = false;
         let mut unused_lazy: Vec<(Option<Key>, Option<Val>)> = vec![];
@@ -1584,12 +1587,14 @@ impl World {
                     let Some(p) = it.next() else { drop(e); break };
                     match (p.step, e) {
                         (Step::AndModify(a), en) => {
+                            expect_now = None;
                             e = en.and_modify(|v| {
                                 tick(CLOSURE);
                                 v.v += a
                             })
                         }
                         (Step::AndReplace(kp, a), en) => {
+                            expect_now = None;
                             e = en.and_replace_entry_with(|_, mut v| {
                                 tick(CLOSURE);
                                 if kp {
@@ -1600,10 +1605,15 @@ impl World {
                                 }
                             })
                         }
-                        (Step::Insert(_), en) => {
+                        (Step::Insert(_, a), en) => {
                             adding |= matches!(en, Entry::Vacant(_));
-                            let o = en.insert(p.val.unwrap());
+                            let mut o = en.insert(p.val.unwrap());
+                            o.get_mut().v += a;
+                            if o.key().k() != k {
+                                anomaly("the handle returned by Entry::insert designates another key".into());
+                            }
                             seen = Some((o.get().v, o.get().id));
+                            expect_now = seen;
                             drop(o);
                             break;
                         }
@@ -1638,9 +1648,11 @@ impl World {
                             };
                             r.v += a;
                             seen = Some((r.v, r.id));
+                            expect_now = seen;
                             break;
                         }
                         (Step::OccRemove, Entry::Occupied(o)) => {
+                            expect_now = None;
                             let v = o.remove();
                             seen = Some((v.v, v.id));
                             returned.push(v.id);
@@ -1648,6 +1660,7 @@ impl World {
                             break;
                         }
                         (Step::OccRemoveEntry, Entry::Occupied(o)) => {
+                            expect_now = None;
                             let (kk, v) = o.remove_entry();
                             seen = Some((v.v, v.id));
                             returned.push(kk.id);
@@ -1656,6 +1669,8 @@ impl World {
                             break;
                         }
                         (Step::OccInsert(_), Entry::Occupied(mut o)) => {
+                            let nv = p.val.as_ref().map(|x| (x.v, x.id));
+                            expect_now = nv;
                             let old = o.insert(p.val.unwrap());
                             seen = Some((old.v, old.id));
                             returned.push(old.id);
@@ -1663,6 +1678,7 @@ impl World {
                             e = Entry::Occupied(o);
                         }
                         (Step::OccReplaceEntry(_), Entry::Occupied(o)) => {
+                            expect_now = None;
                             let (ok, ov) = o.replace_entry(p.val.unwrap());
                             seen = Some((ov.v, ov.id));
                             returned.push(ok.id);
@@ -1681,11 +1697,13 @@ impl World {
                                 let r = o.into_mut();
                                 r.v += a;
                                 seen = Some((r.v, r.id));
+                                expect_now = seen;
                                 break;
                             } else {
                                 let r = o.get_mut();
                                 r.v += a;
                                 seen = Some((r.v, r.id));
+                                expect_now = seen;
                                 if o.key().k() != k || o.get().v != seen.unwrap().0 {
                                     anomaly("occupied handle does not designate the key it was looked up with".into());
                                 }
@@ -1693,6 +1711,7 @@ impl World {
                             }
                         }
                         (Step::OccReplaceWith(kp, a), Entry::Occupied(o)) => {
+                            expect_now = None;
                             e = o.replace_entry_with(|_, mut v| {
                                 tick(CLOSURE);
                                 if kp {
@@ -1711,6 +1730,7 @@ impl World {
                             let r = v.insert(p.val.unwrap());
                             r.v += a;
                             seen = Some((r.v, r.id));
+                            expect_now = seen;
                             break;
                         }
                         (Step::VacIntoKey, Entry::Vacant(v)) => {
@@ -1743,12 +1763,14 @@ impl World {
                     let Some(p) = it.next() else { drop(e); break };
                     match (p.step, e) {
                         (Step::AndModify(a), en) => {
+                            expect_now = None;
                             e = en.and_modify(|_, v| {
                                 tick(CLOSURE);
                                 v.v += a
                             })
                         }
                         (Step::AndReplace(kp, a), en) => {
+                            expect_now = None;
                             e = en.and_replace_entry_with(|_, mut v| {
                                 tick(CLOSURE);
                                 if kp {
@@ -1759,10 +1781,12 @@ impl World {
                                 }
                             })
                         }
-                        (Step::Insert(_), en) => {
+                        (Step::Insert(_, a), en) => {
                             adding |= matches!(en, RawEntryMut::Vacant(_));
-                            let o = en.insert(p.key.unwrap(), p.val.unwrap());
+                            let mut o = en.insert(p.key.unwrap(), p.val.unwrap());
+                            o.get_mut().v += a;
                             seen = Some((o.get().v, o.get().id));
+                            expect_now = seen;
                             break;
                         }
                         (Step::OrInsert(f, _, a), en) => {
@@ -1782,9 +1806,11 @@ impl World {
                             };
                             r.v += a;
                             seen = Some((r.v, r.id));
+                            expect_now = seen;
                             break;
                         }
                         (Step::OccRemove, RawEntryMut::Occupied(o)) => {
+                            expect_now = None;
                             let v = o.remove();
                             seen = Some((v.v, v.id));
                             returned.push(v.id);
@@ -1792,6 +1818,7 @@ impl World {
                             break;
                         }
                         (Step::OccRemoveEntry, RawEntryMut::Occupied(o)) => {
+                            expect_now = None;
                             let (kk, v) = o.remove_entry();
                             seen = Some((v.v, v.id));
                             returned.push(kk.id);
@@ -1800,6 +1827,8 @@ impl World {
                             break;
                         }
                         (Step::OccInsert(_), RawEntryMut::Occupied(mut o)) => {
+                            let nv = p.val.as_ref().map(|x| (x.v, x.id));
+                            expect_now = nv;
                             let old = o.insert(p.val.unwrap());
                             seen = Some((old.v, old.id));
                             returned.push(old.id);
@@ -1817,6 +1846,7 @@ impl World {
                                 let (kk, r) = o.into_key_value();
                                 r.v += a;
                                 seen = Some((r.v, r.id));
+                                expect_now = seen;
                                 if kk.k() != k {
                                     anomaly("raw occupied handle designates another key".into());
                                 }
@@ -1825,6 +1855,7 @@ impl World {
                                 let r = o.get_mut();
                                 r.v += a;
                                 seen = Some((r.v, r.id));
+                                expect_now = seen;
                                 if o.key().k() != k {
                                     anomaly("raw occupied handle designates another key".into());
                                 }
@@ -1832,6 +1863,7 @@ impl World {
                             }
                         }
                         (Step::OccReplaceWith(kp, a), RawEntryMut::Occupied(o)) => {
+                            expect_now = None;
                             e = o.replace_entry_with(|_, mut v| {
                                 tick(CLOSURE);
                                 if kp {
@@ -1860,6 +1892,7 @@ impl World {
                             };
                             r.v += a;
                             seen = Some((r.v, r.id));
+                            expect_now = seen;
                             break;
                         }
                         (_, en) => {
@@ -1906,6 +1939,13 @@ impl World {
         // the reference map is updated from the real map's state for the key (checked against the
         // model in lock-step and against a later `get`); direct check: handle-visible value = get
         let now = m.get_key_value(&q).map(|(kk, v)| (kk.id, v.v, v.id));
+        if cr.r.is_ok() {
+            if let Some((sv, sid)) = expect_now {
+                if now.map(|e| (e.1, e.2)) != Some((sv, sid)) {
+                    self.fails.borrow_mut().push(DirectFail { props: vec!["C12", "C01"], op_index: self.op_index, what: format!("a write through the handle ({sv}#{sid}) is not what a later lookup of key {k} finds ({now:?})") });
+                }
+            }
+        }
         match now {
             Some(e) => {
                 rmap.insert(k, e);
